@@ -7,6 +7,10 @@ Decided clauses (shared with C12 R12.3):
   R15.1 every path that takes the refusing arm of the capacity test ends in a failing return
         (fails rather than truncates); a successful return with no end-pointer out-parameter holds
         the fact "position == length" (the whole text was consumed).
+  R15.5 the capacity test concerns a character that produces output: on every path through the refusing arm of
+        `position >= bin_maxlen` the current iteration has already loaded a text character and holds a branch fact about it
+        (digit / alphabet member). A test hoisted above the classification refuses well-formed text whose decoded size is
+        exactly the capacity when an ignored or foreign character follows.
   R15.2 zero trailing bits: sodium_base642bin can report success only on a path holding both
         "leftover bit count W <= 4" and "(accumulator & ((1 << W) - 1)) == 0" for the *same* W - all
         bits left over after the last full byte were compared with zero.
@@ -37,7 +41,7 @@ def index_of(addr, base):
 
 def decoder_rules(prog, chk, rule_prefix="R15"):
     rows = [("sodium_hex2bin", 0, 1, 2, 3, 6), ("sodium_base642bin", 0, 1, 2, 3, 6)]
-    nst = nld = ncap = nend = 0
+    nst = nld = ncap = nend = ncls = 0
     for name, ibin, imax, itxt, ilen, iend in rows:
         fn = prog.need(name, rule=rule_prefix)
         BIN, MAXL, TXT, LEN, END = (("arg", i) for i in (ibin, imax, itxt, ilen, iend))
@@ -71,6 +75,29 @@ def decoder_rules(prog, chk, rule_prefix="R15"):
                 ok = p.ret_zeroness() == "NZ"
                 chk.ob(rule_prefix + ".1", fn, "capacity exhausted (%s >= bin_maxlen) => failing return" % T.show(refused[0][2], fn),
                        ok, loc=fn.loc(p.end_iid), path=None if ok else p, key="%s.1 %s truncates" % (rule_prefix, name))
+            # R15.5: the capacity test concerns the character at hand: since the last loop head the path has loaded a character
+            # of the text and holds a branch fact about it (it is a digit / an alphabet character that produces output)
+            for ce in p.events:
+                if not (ce.kind == "fact" and ce.term is not None and ce.term[0] == "icmp" and MAXL in (ce.term[2], ce.term[3])):
+                    continue
+                full = (ce.term[1] in ("uge", "ugt") and ce.truth) or (ce.term[1] in ("ult", "ule") and not ce.truth)
+                if ce.term[2] == MAXL:
+                    full = (ce.term[1] in ("ule", "ult") and ce.truth) or (ce.term[1] in ("ugt", "uge") and not ce.truth)
+                if not full:
+                    continue
+                lh = max([x.idx for x in p.events[:ce.idx] if x.kind == "loophead"] or [-1])
+                window = p.events[lh + 1:ce.idx]
+                derived = {x.res for x in window if x.kind == "load" and T.root(x.addr) == TXT}
+                for x in window:
+                    if x.kind == "call" and x.res is not None and any(d in T.subterms(a) for a in x.args if isinstance(a, tuple) for d in derived):
+                        derived.add(x.res)
+                ok = any(x.kind == "fact" and x.term is not None and any(d in T.subterms(x.term) for d in derived) for x in window)
+                ncls += 1
+                chk.ob(rule_prefix + ".5", fn, "the output is declared full only for a character that has been read and classified as producing "
+                       "output", ok, loc=fn.loc(ce.iid), path=None if ok else p,
+                       detail="" if ok else "the capacity test at %s fails the call before the current character is examined: text whose decoded "
+                       "size equals bin_maxlen and that continues with an ignored character or ends at a foreign one is refused with ERANGE"
+                       % fn.loc(ce.iid), key="%s.5 %s capacity-before-classification" % (rule_prefix, name))
             if p.may_return_zero() and p.facts.zeroness(END) == "Z":
                 nend += 1
                 ok = any(v and t[0] == "icmp" and t[1] == "eq" and t[3] == LEN for t, v in p.facts.items)
@@ -89,6 +116,7 @@ def decoder_rules(prog, chk, rule_prefix="R15"):
     chk.floor(rule_prefix + ".0", "loads of encoded text on decoder paths", nld, 100)
     chk.floor(rule_prefix + ".1", "paths through the refusing arm of the capacity test", ncap, 4)
     chk.floor(rule_prefix + ".1", "successful exits without end pointer", nend, 4)
+    chk.floor(rule_prefix + ".5", "refusing capacity tests on decoder paths", ncls, 4)
 
 
 ALSO_PORTABLE = True
